@@ -14,6 +14,8 @@ def enc(x):
     '''Python label/value -> JSON-able literal.'''
     if isinstance(x, (np.datetime64,)):
         return {'d': str(x)}
+    if isinstance(x, np.timedelta64):  # before np.integer: timedelta64 is a signed integer for NumPy
+        return {'td': [int(x.astype('int64')), np.datetime_data(x.dtype)[0]]}
     if isinstance(x, tuple):
         return {'t': [enc(v) for v in x]}
     if isinstance(x, list):
@@ -30,6 +32,8 @@ def enc(x):
         return {'nan': 1}
     if isinstance(x, type) and x.__module__ == 'numpy':
         return {'nptype': x.__name__}
+    if isinstance(x, bytes):
+        return {'bytes': x.decode()}
     if isinstance(x, range):
         return {'range': [x.start, x.stop, x.step]}
     if isinstance(x, frozenset):
@@ -49,6 +53,10 @@ def dec(j):
             return float('nan')
         if 'nptype' in j:
             return getattr(np, j['nptype'])
+        if 'td' in j:
+            return np.timedelta64(j['td'][0], j['td'][1])
+        if 'bytes' in j:
+            return j['bytes'].encode()
         if 'range' in j:
             return range(*j['range'])
         if 'fset' in j:
